@@ -426,7 +426,9 @@ fn jit_interval_mode(thorough: bool, validity: bool) -> Report {
             let mut rng = Rng::new((i as u64).wrapping_mul(0x9E37).wrapping_add(0x1A7));
             let n_in = 1 + rng.below(3);
             let (w, n_out) = (13 + rng.below(28), 1 + rng.below(3));
-            let ssa = gen_wide(&mut rng, n_in, w, n_out, WideOps::BenignInterval);
+            // every other tape interleaves the two-argument call-outs (atan2, mod: the native code saves and restores all
+            // registers around them), so that they happen with 12 registers live
+            let ssa = gen_wide(&mut rng, n_in, w, n_out, if i % 2 == 0 { WideOps::BenignInterval } else { WideOps::CallInterval });
             let (vm, jit) = pair_from_ssa(&ssa, n_in);
             let (vt, jt) = (vm.interval_tape(Default::default()), jit.interval_tape(Default::default()));
             let (mut vev, mut jev) = (JVm::new_interval_eval(), JitFunction::new_interval_eval());
@@ -500,7 +502,7 @@ fn jit_interval_mode(thorough: bool, validity: bool) -> Report {
         }
     }
     r.space = format!(
-        "every op case ({}) x {} placements (direct, out==lhs, out==rhs, through stack spills) x operand intervals = the NaN interval plus all [lo,hi] over {} values incl. +-inf, +-0, MAX ({} intervals per operand; same grid as interp_interval) x immediates from the same values: JitIntervalEval::eval vs VmIntervalEval::<{JN}>::eval on the same VmData.  (1) Equality with the VM: both results have a NaN bound (Interval::has_nan), or lower and upper bounds are numerically equal (so -0 == +0) with a tolerance of {IV_ULPS} ulps.  Tolerance 0 because the native code uses the same IEEE single-precision instructions (add/sub/mul/div/sqrt/round) and calls the very same Rust `Interval::{{sin,cos,tan,asin,acos,atan,exp,ln,rem_euclid,atan2}}` functions for everything else, so no rounding difference is expected; any difference is a different case analysis.  (2) The native result is a valid interval (lower <= upper, or BOTH bounds NaN) and encloses the reference point result at lo, hi, midpoint and every grid value strictly inside each operand (4 ulp slack, NaN interval / NaN point pass, atan2(0,0) excluded), i.e. interp_interval's statement for the native evaluator.  Plus {n_wide} seeded wide tapes (helpers::gen_wide: 13..=40 interval values live at once, i.e. stack spills with 8-byte slots; only add/sub/neg/abs/min/max and multiplication by small immediates, on 8 boxes each from small finite intervals) compared for exact equality of outputs and traces.  Plus two composed expressions on FINITE boxes ((x*y)*z and (x*y)/(x*y) with x=[-3e38,-1], y=[2.5,1e10], z=[0,0.5]) checked for enclosure at all corner/midpoint/grid sample points",
+        "every op case ({}) x {} placements (direct, out==lhs, out==rhs, through stack spills) x operand intervals = the NaN interval plus all [lo,hi] over {} values incl. +-inf, +-0, MAX ({} intervals per operand; same grid as interp_interval) x immediates from the same values: JitIntervalEval::eval vs VmIntervalEval::<{JN}>::eval on the same VmData.  (1) Equality with the VM: both results have a NaN bound (Interval::has_nan), or lower and upper bounds are numerically equal (so -0 == +0) with a tolerance of {IV_ULPS} ulps.  Tolerance 0 because the native code uses the same IEEE single-precision instructions (add/sub/mul/div/sqrt/round) and calls the very same Rust `Interval::{{sin,cos,tan,asin,acos,atan,exp,ln,rem_euclid,atan2}}` functions for everything else, so no rounding difference is expected; any difference is a different case analysis.  (2) The native result is a valid interval (lower <= upper, or BOTH bounds NaN) and encloses the reference point result at lo, hi, midpoint and every grid value strictly inside each operand (4 ulp slack, NaN interval / NaN point pass, atan2(0,0) excluded), i.e. interp_interval's statement for the native evaluator.  Plus {n_wide} seeded wide tapes (helpers::gen_wide: 13..=40 interval values live at once, i.e. stack spills with 8-byte slots; half of them only add/sub/neg/abs/min/max and multiplication by small immediates, the other half additionally atan2 and mod in reg/reg, reg/imm and imm/reg form folded in while all registers are live; on 8 boxes each from small finite intervals) compared for equality of outputs (both NaN intervals, or equal bounds) and traces.  Plus two composed expressions on FINITE boxes ((x*y)*z and (x*y)/(x*y) with x=[-3e38,-1], y=[2.5,1e10], z=[0,0.5]) checked for enclosure at all corner/midpoint/grid sample points",
         table.len(), places.len(), small.len(), ig.len());
     r.distinct = r.cases;
     r.exhaustive = false;
